@@ -98,6 +98,10 @@ class ExprMixin:
             return self.module_const(fr.file, name, consts[name], st, fr)
         if name in MATH_CONSTS:
             return self.math_const(MATH_CONSTS[name])
+        defs = self.tree.def_consts(fr.file)
+        if name in defs:
+            v = defs[name]
+            return real_const(v) if isinstance(v, float) else v
         if name == 'super':
             return Builtin('super')
         if hasattr(_bi, name):
@@ -601,9 +605,9 @@ class ExprMixin:
                                                      self.tree.lookup_method(o.cls, '__eq__')[1] is not None):
                     f = z3.Function('obj_eq', Ref, Ref, z3.BoolSort())
                     ra, rb = to_ref(a), to_ref(b)
-                    self.add_fact(('obj_eq', str(ra)), f(ra, ra))
-                    self.add_fact(('obj_eq', str(rb)), f(rb, rb))
-                    self.add_fact(('obj_eq_sym', str(ra), str(rb)), f(ra, rb) == f(rb, ra))
+                    self.add_fact(('obj_eq', ra.get_id()), f(ra, ra))
+                    self.add_fact(('obj_eq', rb.get_id()), f(rb, rb))
+                    self.add_fact(('obj_eq_sym', ra.get_id(), rb.get_id()), f(ra, rb) == f(rb, ra))
                     return z3.Or(ra == rb, f(ra, rb))
             return self.identical(a, b)
         if isinstance(a, str) and isinstance(b, str):
